@@ -325,31 +325,54 @@ def FileShort : SmFile → Prop
 /-! #### metricmeta.json (`ReadMetricsMeta`, `removeMetricsSegmentsByList`, pkg/segment/writer/metrics/meta/metricsmeta.go)
 
 The same kind of file (one `json.Marshal` of a MetricsMeta per line, `key` = MSegmentDir) and the same kind of
-rewrite, with two differences that matter: both functions use a DEFAULT `bufio.Scanner`
-(`bufio.MaxScanTokenSize` = 64 KiB, and a MetricsMeta line carries the segment's whole `tagKeys` set), and
-`removeMetricsSegmentsByList` only LOGS the scanner's error and goes on with the lines it got. -/
+rewrite.  A MetricsMeta line carries the segment's whole `tagKeys` set, so it has no small bound.  After the
+two repairs both functions scan with `Buffer(nil, maxMetaLineBytes)` (64 MiB, the buffer grows on demand) and
+`removeMetricsSegmentsByList` RETURNS when the scan ended with an error — no directory removed, no rewrite —
+as `removeSegmetas` does.  (Before: a default `bufio.Scanner`, 64 KiB, and the rewrite only LOGGED the
+scanner's error and went on with the lines it had got; kept as `mmReadOld` / `mmRemoveOld` / `mmPassOld`.) -/
 
-/-- `bufio.MaxScanTokenSize` -/
-def mmScanLimit : Nat := 65536
+/-- `maxMetaLineBytes` -/
+def mmScanLimit : Nat := 67108864
 
-/-- `ReadMetricsMeta`: the entries before the first line the scanner cannot deliver (the map it returns), and
-whether it returns an error -/
-def mmRead : SmFile → List SmLine × Bool
+/-- `bufio.MaxScanTokenSize`, the limit before the repair -/
+def mmScanLimitOld : Nat := 65536
+
+/-- `ReadMetricsMeta` with a scanner of maximal token size `limit`: the entries before the first line the
+scanner cannot deliver (the map it returns), and whether it returns an error -/
+def mmReadWith (limit : Nat) : SmFile → List SmLine × Bool
   | .missing => ([], false)
-  | .lines ls => ((smScanWith mmScanLimit ls).1.filter (·.isEntry), (smScanWith mmScanLimit ls).2)
+  | .lines ls => ((smScanWith limit ls).1.filter (·.isEntry), (smScanWith limit ls).2)
+
+def mmRead (f : SmFile) : List SmLine × Bool := mmReadWith mmScanLimit f
+def mmReadOld (f : SmFile) : List SmLine × Bool := mmReadWith mmScanLimitOld f
 
 /-- `removeMetricsSegmentsByList(file, map)`; `victim k` = MSegmentDir k is in the map -/
 def mmRemove (nilMap : Bool) (victim : Nat → Bool) (f : SmFile) : SmFile :=
-  if nilMap then f                                                     -- l.177
+  if nilMap then f                                                     -- `metricsSegmentsToDelete == nil`
   else match f with
-  | .missing => f                                                      -- l.186: open fails
+  | .missing => f                                                      -- open fails
   | .lines ls =>
-    let sc := (smScanWith mmScanLimit ls).1                            -- l.220: the scan error is only logged
+    let sc := smScanWith mmScanLimit ls
+    if sc.2 then f                                                     -- `reader.Err() != nil`: return, nothing touched
+    else
+      let es := sc.1.filter (·.isEntry)
+      if !(es.any (fun l => victim l.key)) then f                      -- entriesRemoved == 0
+      else
+        let keep := es.filter (fun l => !victim l.key)
+        if keep.isEmpty then .missing else .lines keep
+
+/-- the function before the repairs: 64 KiB scanner, and the scan error is only logged -/
+def mmRemoveOld (nilMap : Bool) (victim : Nat → Bool) (f : SmFile) : SmFile :=
+  if nilMap then f
+  else match f with
+  | .missing => f
+  | .lines ls =>
+    let sc := (smScanWith mmScanLimitOld ls).1
     let es := sc.filter (·.isEntry)
-    if !(es.any (fun l => victim l.key)) then f                        -- l.223: entriesRemoved == 0
+    if !(es.any (fun l => victim l.key)) then f
     else
       let keep := es.filter (fun l => !victim l.key)
-      if keep.isEmpty then .missing else .lines keep                   -- l.225-261
+      if keep.isEmpty then .missing else .lines keep
 
 /-- `ReadMetricsMeta` returns a map keyed by MSegmentDir (a later line of the same key replaces an earlier
 one); the pass applies its victim test to the map's values -/
@@ -358,13 +381,23 @@ def mmExpiredKey (expired : SmLine → Bool) (es : List SmLine) (k : Nat) : Bool
   | some l => expired l
   | none => false
 
-/-- the metrics half of a pass (`DoRetentionBasedDeletion` l.89-93, `doVolumeBasedDeletion` l.240-244,
-`doInodeBasedDeletion`): the victims are chosen among the entries `ReadMetricsMeta` returns; when it returns
-an error the pass RETURNS (nothing is deleted, log segments included).  `expired` = the pass's victim test. -/
+/-- the metrics half of a pass (`DoRetentionBasedDeletion`, `doVolumeBasedDeletion`, `doInodeBasedDeletion`):
+the victims are chosen among the entries `ReadMetricsMeta` returns; when it returns an error the pass RETURNS
+(nothing is deleted, log segments included).  `expired` = the pass's victim test. -/
 def mmPass (expired : SmLine → Bool) (f : SmFile) : SmFile :=
   let rd := mmRead f
   if rd.2 then f
   else mmRemove false (mmExpiredKey expired rd.1) f
+
+def mmPassOld (expired : SmLine → Bool) (f : SmFile) : SmFile :=
+  let rd := mmReadOld f
+  if rd.2 then f
+  else mmRemoveOld false (mmExpiredKey expired rd.1) f
+
+/-- the lines of a file (none when it is absent) -/
+def SmFile.lineList : SmFile → List SmLine
+  | .missing => []
+  | .lines ls => ls
 
 /-! #### the file as bytes: what the scanner's lines are -/
 
